@@ -42,7 +42,8 @@ def gen_cases(tier, seed):
         cases.append({'rel': REL[i % len(REL)], 'kinds': kinds, 'profile': ['const', 'linear'][int(rng.integers(2))], 'l': int(rng.integers(2, 7)),
                       'freq': float(10 ** (rng.uniform(-4, -3) if dyn else rng.uniform(-7, -3))), 'a': float(10 ** rng.uniform(-2, 2)),
                       'R': float(10 ** rng.uniform(5.7, 7.2)), 'nper': int(rng.choice([20, 40, 60])), 'kamata': bool(rng.integers(2)), 'm1': int(rng.integers(3)), 'sub': i, 'seed': seed,
-                      'static_solid': bool(rng.integers(2)), 'sf': [['tidal'], ['loading'], ['tidal', 'loading'], ['loading', 'tidal']][int(rng.integers(4))], 'nd': bool(rng.integers(2))})
+                      'static_solid': bool(rng.integers(2)), 'sf': [['tidal'], ['loading'], ['tidal', 'loading'], ['loading', 'tidal']][int(rng.integers(4))], 'nd': bool(rng.integers(2)),
+                      'thin_top': bool(nl > 1 and rng.random() < 0.2)})
     return cases
 
 
@@ -51,6 +52,11 @@ def make_layers(c):
     n = len(c['kinds'])
     fr = list(np.linspace(0.25, 1.0, n + 1)[1:]) if n > 1 else [1.0]
     fr = [min(1.0, f + (rng.uniform(-0.05, 0.05) if i < n - 1 else 0)) for i, f in enumerate(fr)]
+    if n > 1 and c.get('thin_top'):
+        # a thin, finely sampled surface layer (ice shell / crust of 1-3 % of the radius): radial spacings of a few 1e-4 R next to an interface
+        fr[-2] = 1.0 - float(rng.uniform(0.01, 0.03))
+        for i_ in range(n - 2, 0, -1):
+            fr[i_ - 1] = min(fr[i_ - 1], fr[i_] - 0.05)
     dens = np.sort(rng.uniform(1000, 11000, n))[::-1]
     layers = []
     for i, k in enumerate(c['kinds']):
